@@ -138,7 +138,19 @@ func init() {
 		for _, n := range strings.Split(a[1], "+") {
 			sizes = append(sizes, atoi(n))
 		}
-		return c02run(a[0], sizes, atoi(a[2]), atoi(a[3]), 0)
+		return c02run(a[0], sizes, atoi(a[2]), atoi(a[3]), 0, 0)
+	}
+
+	// c02.bad <transport> <n bad> <n good after> <lines of the first file> <hold ms>
+	// one session: a first file larger than pipe + queue (held back as in c02.many), then <n bad> files the reader
+	// cannot start on (named *.gz, not gzip data), then good files queued behind the cat limit.  Every good file
+	// must arrive completely and the session must end by itself.
+	ops["c02.bad"] = func(a []string) string {
+		sizes := []int{atoi(a[3])}
+		for i := 0; i < atoi(a[2]); i++ {
+			sizes = append(sizes, 3+i)
+		}
+		return c02run(a[0], sizes, 0, 32768, atoi(a[4]), atoi(a[1]))
 	}
 
 	// c02.many <transport> <n files> <lines of the first file> <hold ms>
@@ -151,11 +163,11 @@ func init() {
 		for i := 1; i < n; i++ {
 			sizes = append(sizes, 3)
 		}
-		return c02run(a[0], sizes, 0, 32768, atoi(a[3]))
+		return c02run(a[0], sizes, 0, 32768, atoi(a[3]), 0)
 	}
 }
 
-func c02run(transport string, sizes []int, delay, chunk, hold int) string {
+func c02run(transport string, sizes []int, delay, chunk, hold, bad int) string {
 	var files []string
 	var c *cluster
 	dir := ""
@@ -171,8 +183,19 @@ func c02run(transport string, sizes []int, delay, chunk, hold int) string {
 		defer os.RemoveAll(d)
 		dir = d
 	}
+	var good []string
 	for i, n := range sizes {
-		files = append(files, c02file(dir, i, n))
+		f := c02file(dir, i, n)
+		files = append(files, f)
+		good = append(good, f)
+		if i == 0 {
+			// files the reader cannot start on come right after the first one
+			for k := 0; k < bad; k++ {
+				p := filepath.Join(dir, fmt.Sprintf("bad%d.gz", k))
+				os.WriteFile(p, []byte("this is not gzip data\n"), 0o644)
+				files = append(files, p)
+			}
+		}
 	}
 	args := []string{"--plain", "--cfg", "none", "--logger", "stdout", "--logLevel", "error"}
 	var cmd *exec.Cmd
@@ -194,6 +217,9 @@ func c02run(transport string, sizes []int, delay, chunk, hold int) string {
 		panic(err)
 	}
 	pw.Close()
+	// a client that never ends is killed: the read loop below then sees the end of the pipe
+	overall := time.AfterFunc(time.Duration(hold)*time.Millisecond+60*time.Second, func() { cmd.Process.Kill() })
+	defer overall.Stop()
 	if hold > 0 {
 		time.Sleep(time.Duration(hold) * time.Millisecond)
 	}
@@ -231,6 +257,9 @@ func c02run(transport string, sizes []int, delay, chunk, hold int) string {
 		if l == "" {
 			continue
 		}
+		if bad > 0 && strings.HasPrefix(l, "SERVER|") {
+			continue // the server's error message about a file it cannot read
+		}
 		p := strings.SplitN(l, ":", 2)
 		if len(p) != 2 || !strings.HasPrefix(p[0], "f") {
 			return "MALFORMED " + hx([]byte(l))
@@ -238,7 +267,7 @@ func c02run(transport string, sizes []int, delay, chunk, hold int) string {
 		per[p[0]] = append(per[p[0]], p[1])
 	}
 	var parts []string
-	for i := range files {
+	for i := range good {
 		k := fmt.Sprintf("f%d", i)
 		parts = append(parts, k+"="+compress(per[k]))
 	}
